@@ -17,7 +17,6 @@ Judge(r) ==
        \cup (IF r.rb < 0 THEN (IF Len(r.reqs) = 1 THEN {} ELSE {<<"C02", "a second stream request was sent although the first was accepted">>})
              ELSE IF Len(r.reqs) = 2 /\ r.reqs[2] = <<Branch(r.log, r.rb), r.rb, r.latest, r.rb, r.rb>> THEN {}
              ELSE {<<"C08", "after ROLLBACK(r) the stream is not re-requested from r on the branch that contains r with snapshot r..r">>})
-       \cup (IF r.rb >= 0 /\ r.catchup # r.seq THEN {<<"C08", "the position reached before the rollback is not the observer's catch-up mark">>} ELSE {})
        \* right behind the accepting answer the node sent every event from the resume point up to one past the position reached
        \cup (IF r.delivered = <<r.seq + 1>> THEN {}
              ELSE IF r.rb >= 0 THEN {<<"C08", "after a rollback an event at or below the position already reached was shown again (or the first new one was not)">>}
